@@ -2,6 +2,7 @@
 From Coq Require Import List ZArith NArith Bool.
 Import ListNotations.
 From GS Require Import Num EventLoop Kernel Sim.
+From GS Require Import NumZ Sim ExampleKit.
 From GS.Proofs Require Import Aux SimP SimP3 TraceSpec TimerSpec.
 
 Section C08.
@@ -105,6 +106,21 @@ Proof.
 Qed.
 
 End C08.
+
+(** Non-vacuity: three nodes in range, delay 2: a unicast reaches only its addressee, a broadcast every
+    other node, each once at send time + delay; self / unknown / missing destinations raise. *)
+Definition ex8 (n : nat) (ps : unit) (now : Z) (c : cb Z) : unit * list (action Z) :=
+  match c, n with
+  | CbInit, O => (tt, [ASend 7 (Some 1); ABroadcast 8; ASend 9 (Some 0); ASend 9 (Some 5); ASend 9 None])
+  | _, _ => (tt, [])
+  end.
+Example C08_example :
+  fst (fst (fst (runx (cfgx [HTimer; HComm] 3 [(0, 0, 0)%Z; (0, 0, 0)%Z; (0, 0, 0)%Z] 10%Z 2%Z 0%Z 1%Z 1%Z [] []) ex8 None None 20))) =
+  [TCb 0 0%Z CbInit; TAct 0 (ASend 7 (Some 1)) Ok; TAct 0 (ABroadcast 8) Ok; TAct 0 (ASend 9 (Some 0)) ErrComm;
+   TAct 0 (ASend 9 (Some 5)) ErrComm; TAct 0 (ASend 9 None) ErrComm; TCb 1 0%Z CbInit; TCb 2 0%Z CbInit;
+   TCb 1 2%Z (CbPacket 7); TCb 1 2%Z (CbPacket 8); TCb 2 2%Z (CbPacket 8);
+   TCb 0 2%Z CbFinish; TCb 1 2%Z CbFinish; TCb 2 2%Z CbFinish].
+Proof. vm_compute. reflexivity. Qed.
 
 Print Assumptions C08_unicast.
 Print Assumptions C08_one_copy.
